@@ -566,6 +566,13 @@ class PeerStateMachine():
 
     def get_next_state(self, next_state: str) -> Any:
         if next_state == CLOSED and self.current_state.name == CLOSED:
+            #: The peer has gone away before the capabilities exchange: the
+            #: transport still needs to be released.
+            if self.association.is_connected() and \
+               self.association.transport._stop_threads:
+                self.is_running = False
+                self.association.close()
+
             return self.states[CLOSED]
 
         elif next_state == CLOSED and self.current_state.name != CLOSED:
